@@ -469,6 +469,14 @@ class Unit:
         if self.dimensions is logarithmic and p != 1:
             raise InvalidUnitOperation(f"Tried to raise '{self}' to power '{p}'")
 
+        if self.base_offset and p not in (0, 1):
+            # same rule as __mul__/__truediv__: units with a zero-point offset
+            # (Celsius, Fahrenheit, lat, lon) have no meaningful powers
+            raise InvalidUnitOperation(
+                f"Tried to raise '{self}' to power '{p}'. Units with an offset "
+                "cannot be raised to a power."
+            )
+
         return Unit(
             self.expr**p,
             base_value=(self.base_value**p),
